@@ -440,6 +440,36 @@ def _(f, a):
     return f.clip(lower=a[0], upper=a[1])
 
 
+def _bound_frame(f, base, layout, salt):
+    """a Frame with f's labels holding int64 cells `base + pattern`, stored under its OWN block layout (a list of [width, is2d] over
+    all columns: every column has the same dtype, so any composition is admissible) - staggered against f's blocks"""
+    import numpy as np
+    import static_frame as sf
+    n, m = f.shape
+    arr = np.array([[base + ((i * 7 + j * 3 + salt) % 5) for j in range(m)] for i in range(n)], dtype=np.int64).reshape(n, m)
+    blocks, j = [], 0
+    for w, is2d in layout:
+        blk = arr[:, j:j + w].copy() if (is2d or w > 1) else arr[:, j].copy()
+        blk.flags.writeable = False
+        blocks.append(blk)
+        j += w
+    if not blocks:
+        return sf.Frame(index=f.index, columns=f.columns)
+    return sf.Frame(sf.TypeBlocks.from_blocks(blocks), index=f.index, columns=f.columns, own_data=True)
+
+
+def _own_layout(rng, s):
+    return gen.rand_layout(rng, ['int64'] * len(s['cols']))
+
+
+# a bound given as a Frame is matched to the blocks of self by TypeBlocks.clip's own get_block_match (pop / split / push back)
+@op('clip_frame', lambda rng, s: [rng.randint(-3, 1), rng.choice(['lower', 'upper', 'both']), _own_layout(rng, s), _own_layout(rng, s), rng.randrange(100)])
+def _(f, a):
+    lo = _bound_frame(f, a[0], a[2], a[4]) if a[1] in ('lower', 'both') else None
+    hi = _bound_frame(f, a[0] + 3, a[3], a[4] + 1) if a[1] in ('upper', 'both') else None
+    return f.clip(lower=lo, upper=hi)
+
+
 @op('isin', lambda rng, s: [[rng.choice(FILLS) for _ in range(3)]])
 def _(f, a):
     return f.isin([_fill(t) for t in a[0]])
